@@ -39,17 +39,25 @@ type Hello struct {
 type recConn struct {
 	net.Conn
 	mu     sync.Mutex
-	sent   []byte
+	sent   []byte // the first recLimit bytes
+	off    int64  // bytes written so far
 	filter func(off int64, b []byte) []byte
 }
+
+// recLimit bounds what a client remembers of its own output (the hello and the first exchanges are what the oracles
+// read back; a volume test must not be charged for the harness' own copy).
+const recLimit = 1 << 20
 
 func (r *recConn) Write(b []byte) (int, error) {
 	r.mu.Lock()
 	out := b
 	if r.filter != nil {
-		out = r.filter(int64(len(r.sent)), append([]byte(nil), b...))
+		out = r.filter(r.off, append([]byte(nil), b...))
 	}
-	r.sent = append(r.sent, out...)
+	r.off += int64(len(out))
+	if len(r.sent) < recLimit {
+		r.sent = append(r.sent, out...)
+	}
 	r.mu.Unlock()
 	if _, err := r.Conn.Write(out); err != nil {
 		return 0, err
